@@ -67,14 +67,16 @@ Record hst := HS {
   h_subs : nat;                (* successful Subscribe calls for this handler (ghost) *)
   h_inflight : nat;            (* messages received by the loop whose handleMessage has not finished *)
   h_mid : bool;                (* ghost: Subscribe returned, h.started not yet set *)
+  h_stopreq : bool;            (* ghost: a Stop() call on this handler reached stopFn() *)
+  h_envend : bool;             (* ghost: the environment ended this handler's subscription *)
   h_loop : lpc;
   h_hc : cpc
 }.
 #[export] Instance eta_hst : Settable _ := settable! HS
   <h_pub; h_hon; h_par; h_inmap; h_started; h_startedCh; h_stopFn; h_stoppedSet; h_stoppedCh;
-   h_cancel; h_subOpen; h_subs; h_inflight; h_mid; h_loop; h_hc>.
+   h_cancel; h_subOpen; h_subs; h_inflight; h_mid; h_stopreq; h_envend; h_loop; h_hc>.
 
-Definition h0 : hst := HS None false PRun false false false false false false false false 0 0 false LNone CNone.
+Definition h0 : hst := HS None false PRun false false false false false false false false 0 0 false false false LNone CNone.
 
 Inductive owner := OMain | OThr (t : tid) | OWatch.
 
@@ -314,7 +316,7 @@ Definition step (s : rstate) (l : label) : option (rstate * list aev) :=
   | LObsStopped h =>
       if Nat.ltb h (nexth s) && h_stoppedSet (hs s h) && h_stoppedCh (hs s h) then Some (s, [AStoppedObs h]) else None
   | LSubEnd h =>
-      if h_subOpen (hs s h) then Some (set_h s h (hs s h <| h_subOpen := false |>), [ASubEnd h]) else None
+      if h_subOpen (hs s h) then Some (set_h s h (hs s h <| h_subOpen := false |> <| h_envend := true |>), [ASubEnd h]) else None
   | LRecv h =>
       let x := hs s h in
       match h_loop x with
@@ -361,7 +363,7 @@ Definition step (s : rstate) (l : label) : option (rstate * list aev) :=
       | TStopCall h a =>
           match c with
           | CStep => if h_stopFn (hs s h)
-                     then Some (set_t (set_h s h (hs s h <| h_cancel := true |>)) t (TStopDone h a StopOk), [AStopRet t StopOk])
+                     then Some (set_t (set_h s h (hs s h <| h_cancel := true |> <| h_stopreq := true |>)) t (TStopDone h a StopOk), [AStopRet t StopOk])
                      else Some (set_t s t (TStopDone h a StopNilPanic), [AStopRet t StopNilPanic])
           | _ => None
           end
